@@ -57,6 +57,7 @@ THEOREMS = [P + n for n in [
     "generated_escape_derivation",
     "generated_cfg_tables_derived",
     "comment_read_back",
+    "comment_open_marker_needs_breaking",
     "raw_literal_read",
     "raw_read_needs_premise",
     "foreign_delimiter_preserved",
@@ -1753,8 +1754,10 @@ def search(chk: Check, hints: list, budget_s: float) -> None:
     found = tried = 0
     kindmap = {"str": "string", "id": "identifier", "com": "comment"}
     cands = list(WITNESSES)
-    for label, kind, s in hints[:50]:
-        cands.append(("" if label == "base" else label, kindmap.get(kind, "string"), s))
+    for label, kind, s_ in hints[:50]:
+        for one_s in (s_ if isinstance(s_, (list, tuple)) else [s_]):
+            if isinstance(one_s, str):
+                cands.append(("" if label == "base" else label, kindmap.get(kind, "string"), one_s))
     corpus_dir = os.path.join(os.path.dirname(os.path.dirname(os.path.dirname(os.path.abspath(__file__)))), "corpus", "C04")
     if os.path.isdir(corpus_dir):
         for fn in sorted(os.listdir(corpus_dir)):
@@ -1818,6 +1821,26 @@ def search(chk: Check, hints: list, budget_s: float) -> None:
                 break
             tried += 1
             found += consider_stmt(chk, d, spec)
+    # comments at statement level through the dialect's FULL tokenizer (Dialect.tokenize: for tokenizers that override
+    # tokenize(), e.g. Athena's routing pass + sub-tokenizer, every pass reads the generated text)
+    import sqlglot.tokens as _tokens
+    _, _, Dialect, *_ = sg()
+    multi = []
+    for d in names:
+        tkc = Dialect.get_or_raise(d or None).tokenizer_class
+        if any("tokenize" in c.__dict__ for c in tkc.__mro__ if c is not _tokens.Tokenizer and issubclass(c, _tokens.Tokenizer)):
+            multi.append(d or "base")
+    chk.cov["tokenizers_overriding_tokenize"] = multi
+    ctexts = ["/*", "*/", "/ *", "* /", "see s3://bucket/*/part", "a /* b */ c", "/*/", "*/*", "/* /*", "x */ y /* z", "/", "*",
+              "--", "# x", "// y", "{# z #}", "/*+ h */", "a\n/*\nb"]
+    for d in ([x for x in order if (x or "base") in multi] + [x for x in order if (x or "base") not in multi]):
+        for ct in ctexts:
+            for variant in range(4):
+                for opts in ({}, {"pretty": True}):
+                    if len(chk.violations) >= 5:
+                        break
+                    tried += 1
+                    found += consider(chk, d, "comment", ct, dict(opts), variant)
     # the builder API: every entry point with the adversarial names/values, every dialect
     api_names = list(api_entries())
     for d in order:
